@@ -110,7 +110,30 @@ Definition laws (d : nat) (ab ba : list iobs) : list nat :=
   (if law_compl (nth_obs 13 ab) (nth_obs 14 ab) then [] else [(off + 2303)%nat]) ++
   (if law_cmp (nth_obs 19 ab) (nth_obs 15 ab) (nth_obs 17 ab) then [] else [(off + 2304)%nat]).
 
+(* the operator result used as a loop condition (`for (; $l OP R; )`): only its truthiness is
+   observed *)
+Definition truth_agree (m : outcome) (ob : iobs) : bool :=
+  match m, ob with
+  | Val v, IVal (VBool b) => Bool.eqb (ref_truthy v) b
+  | Opaque _, IVal (VBool _) => true
+  | Throw, IThrow => true
+  | Crash, IPanic => true
+  | _, _ => false
+  end.
+Definition check_op_truth (lib : golib) (d i : nat) (o : binop) (l r : value) (ob : iobs) : list nat :=
+  let base := (d * 2400 + i * 100)%nat in
+  (if truth_agree (binop_eval lib false o l r) ob then [] else [(base + 1)%nat]) ++
+  (if inD o l r && wf l && wf r && negb (truth_agree (ref_binop lib o l r) ob) then [(base + 2)%nat] else []) ++
+  (if acceptable (to_outcome ob) then [] else [(base + 3)%nat]).
+Fixpoint check_ops_truth (lib : golib) (d i : nat) (ops : list binop) (l r : value) (obs : list iobs) : list nat :=
+  match ops, obs with
+  | o :: ops', ob :: obs' => check_op_truth lib d i o l r ob ++ check_ops_truth lib d (S i) ops' l r obs'
+  | [], [] => []
+  | _, _ => [4999%nat]
+  end.
+
 Inductive case :=
+| CTruth (l r : value) (orc : oracle) (lr rl : list iobs)  (* truthiness of all_binops results as for-conditions *)
 | CPair (l r : value) (orc : oracle) (lr rl : list iobs)   (* all_binops on (l,r) and on (r,l), distinct objects *)
 | CSame (v : value) (orc : oracle) (obs : list iobs)       (* all_binops on (v,v), the SAME Go object *)
 | CUn (v : value) (orc : oracle) (obs : list iobs)         (* all_unops *)
@@ -151,6 +174,9 @@ Fixpoint check_uns (lib : golib) (i : nat) (os : list unop) (v : value) (obs : l
 
 Definition check_case (c : case) : list nat :=
   match c with
+  | CTruth l r orc lr rl =>
+      let lib := lib_of orc in
+      check_ops_truth lib 0 0 all_binops l r lr ++ check_ops_truth lib 1 0 all_binops r l rl
   | CPair l r orc lr rl =>
       let lib := lib_of orc in
       check_ops lib false 0 0 all_binops l r lr ++ check_ops lib false 1 0 all_binops r l rl ++
